@@ -133,6 +133,27 @@ def oracle(ck, tier, deep):
         tol = 1e-9 * max(1.0, np.abs(coeffs).max()) * 10 ** (N - 1)
         if err > tol:
             ck.violation(sig, dict(rep, radii=[good[0], good[-1]]), f"recovered coefficients differ from the exact model by {err:.3g} (tol {tol:.3g})")
+        # the same Distributions object fed an image of another shape (weights=None, shape-independent origin / rmax spec)
+        if wt is None and isinstance(o_arg, str) and isinstance(rmax, str):
+            h2, w2 = (int(v) for v in rng.integers(21, 60, size=2))
+            origin2 = ({"t": 0, "u": 0, "c": h2 // 2, "b": h2 - 1, "l": h2 - 1}[v], {"l": 0, "c": w2 // 2, "r": w2 - 1}[hz])
+            coeffs2 = rng.normal(size=N)
+            im2, _ = synth_image((h2, w2), origin2, coeffs2, odd)
+            ck.count(("S.reuse", odd, order, method, (h2 > h) - (h2 < h), (w2 > w) - (w2 < w)), suite="S.recover")
+            try:
+                cn2 = quiet(D.image, im2).cos()
+            except Exception as e:
+                ck.violation(dict(sig, clause="exception"), dict(rep, second_shape=[h2, w2]), f"{type(e).__name__}: {e}")
+                continue
+            row, col = origin2
+            reach = min(max(row, h2 - 1 - row), max(col, w2 - 1 - col)) if not odd else min(row, h2 - 1 - row, max(col, w2 - 1 - col))
+            good2 = [R for R in range(6 + N, min(cn2.shape[1], reach - 1))]
+            if good2:
+                err2 = np.abs(cn2[:, good2] - coeffs2[:, None]).max()
+                tol2 = 1e-9 * max(1.0, np.abs(coeffs2).max()) * 10 ** (N - 1)
+                if err2 > tol2:
+                    ck.violation(dict(sig, clause="exact-recovery-object-reuse"), dict(rep, second_shape=[h2, w2], coeffs2=coeffs2.tolist()),
+                                 f"the same Distributions object, second image of shape {(h2, w2)} after {(h, w)}: coefficients off by {err2:.3g}")
     # anisotropy parameter of a noiseless curve
     for _ in range(40 if not deep else 400):
         beta, A = float(rng.uniform(-1, 2)), float(rng.uniform(0.1, 50))
